@@ -486,3 +486,412 @@ Proof.
   - cbn [failures posted]. split; [exact I2|]. intros a. rewrite !total_for_app, Hs, I3. reflexivity.
   - subst y. cbn [failures posted]. split; [rewrite I2; reflexivity | exact I3].
 Qed.
+
+(* ------------------------------------------------------------------ the specification *)
+(* The reading of the property text: what is open is a partial map from accounts to check-ins;
+   a check-in to an open account, a check-out for an account that is not open and a check-out
+   earlier than its check-in are errors; everything else posts the session. *)
+Definition lookup (a : acct) (open : list tx) : option tx :=
+  find (fun e => acct_eqb a (tx_acct e)) open.
+Definition drop (a : acct) (open : list tx) : list tx :=
+  filter (fun e => negb (acct_eqb a (tx_acct e))) open.
+
+Inductive verdict : Type :=
+| Accept (ps : list post)
+| Reject (c : err).
+
+Definition spec_step (day_break : bool) (open : list tx) (ev : event) : list tx * verdict :=
+  match ev with
+  | CheckIn e =>
+      match lookup (tx_acct e) open with
+      | Some _ => (open, Reject ETimelogDouble)
+      | None => (open ++ [e], Accept [])
+      end
+  | CheckOut o =>
+      match lookup (tx_acct o) open with
+      | None => (open, Reject ETimelogNoIn)
+      | Some e =>
+          (drop (tx_acct o) open,
+           if tx_t o <? tx_t e then Reject ETimelogNegative else Accept (session_posts day_break e o))
+      end
+  end.
+
+Fixpoint spec_run (day_break : bool) (open : list tx) (evs : list event) : list tx * list verdict :=
+  match evs with
+  | [] => (open, [])
+  | ev :: r =>
+      let '(open1, v) := spec_step day_break open ev in
+      let '(open2, vs) := spec_run day_break open1 r in
+      (open2, v :: vs)
+  end.
+
+Definition verdict_of (oc : outcome) : verdict :=
+  match oc with Posted ps => Accept ps | Failed e => Reject (tl_class e) end.
+
+(* no account is open twice *)
+Definition distinct (open : list tx) : Prop := NoDup (map tx_acct open).
+
+(* the line names an account (always so for a line read from a file: textual.cc:499 never passes NULL) *)
+Definition named (ev : event) : Prop :=
+  match ev with CheckOut o => tx_acct o <> None | CheckIn _ => True end.
+
+(* F12 form: exactly one session is open and the check-out names another account *)
+Definition names_other (open : list tx) (ev : event) : Prop :=
+  match ev, open with
+  | CheckOut o, [e] => tx_acct o <> tx_acct e
+  | _, _ => False
+  end.
+
+Lemma lookup_is_open a open : is_open a open = match lookup a open with Some _ => true | None => false end.
+Proof.
+  unfold is_open, lookup. induction open as [|x r IH]; cbn [existsb find]; [reflexivity|].
+  destruct (acct_eqb a (tx_acct x)); cbn; auto.
+Qed.
+
+Lemma drop_id a open : (forall x, In x open -> tx_acct x <> a) -> drop a open = open.
+Proof.
+  induction open as [|x r IH]; intros H; cbn [drop filter]; [reflexivity|].
+  replace (acct_eqb a (tx_acct x)) with false.
+  - cbn. f_equal. apply IH. intros y Hy. apply H. right. exact Hy.
+  - symmetry. apply acct_eqb_false. intros ->. apply (H x); [left|]; reflexivity.
+Qed.
+
+Lemma take_first_lookup a open :
+  distinct open ->
+  match take_first a open with
+  | Some (e, rest) => lookup a open = Some e /\ drop a open = rest
+  | None => lookup a open = None
+  end.
+Proof.
+  unfold distinct. induction open as [|x r IH]; intros Hd; cbn [take_first]; [reflexivity|].
+  cbn [map] in Hd. inversion Hd as [|? ? Hnin Hd']; subst.
+  unfold lookup, drop. cbn [find filter].
+  destruct (acct_eqb a (tx_acct x)) eqn:E.
+  - split; [reflexivity|]. cbn [negb]. apply drop_id. intros y Hy Ha.
+    apply acct_eqb_spec in E. apply Hnin. rewrite <- E, <- Ha. apply in_map. exact Hy.
+  - specialize (IH Hd'). destruct (take_first a r) as [[e rest]|].
+    + destruct IH as [I1 I2]. split; [exact I1|]. cbn [negb]. f_equal. exact I2.
+    + exact IH.
+Qed.
+
+Lemma step_refines_spec db open ev :
+  distinct open -> named ev -> ~ names_other open ev ->
+  spec_step db open ev = (fst (step db open ev), verdict_of (snd (step db open ev))).
+Proof.
+  intros Hd Hn Hf. destruct ev as [e|o]; cbn [step spec_step].
+  - unfold clock_in. rewrite lookup_is_open. destruct (lookup (tx_acct e) open); reflexivity.
+  - unfold clock_out, clock_out_from, select.
+    destruct open as [|x [|y r]].
+    + reflexivity.
+    + cbn [names_other] in Hf.
+      assert (Ha : tx_acct o = tx_acct x).
+      { destruct (acct_eqb (tx_acct o) (tx_acct x)) eqn:E; [apply acct_eqb_spec; exact E|].
+        apply acct_eqb_false in E. contradiction. }
+      unfold lookup, drop. cbn [find filter]. rewrite Ha, acct_eqb_refl. cbn [negb fst snd].
+      rewrite finish_spec. destruct (tx_t o <? tx_t x); reflexivity.
+    + cbn [named] in Hn. destruct (tx_acct o) as [n|] eqn:Ea; [|contradiction].
+      pose proof (take_first_lookup (Some n) (x :: y :: r) Hd) as T.
+      destruct (take_first (Some n) (x :: y :: r)) as [[e rest]|].
+      * destruct T as [T1 T2]. rewrite T1, T2. cbn [fst snd]. rewrite finish_spec.
+        destruct (tx_t o <? tx_t e); reflexivity.
+      * rewrite T. reflexivity.
+Qed.
+
+(* the model never opens an account twice *)
+Lemma NoDup_snoc {A} (l : list A) (a : A) : NoDup l -> ~ In a l -> NoDup (l ++ [a]).
+Proof.
+  induction 1 as [|x l Hx Hl IH]; intros Ha; cbn [app].
+  - constructor; [intros []|constructor].
+  - constructor.
+    + rewrite in_app_iff. intros [H|[H|[]]]; [contradiction|]. apply Ha. left. symmetry. exact H.
+    + apply IH. intros H. apply Ha. right. exact H.
+Qed.
+
+Lemma step_distinct db open ev : distinct open -> distinct (fst (step db open ev)).
+Proof.
+  unfold distinct. intros Hd. destruct ev as [e|o]; cbn [step].
+  - unfold clock_in. destruct (is_open (tx_acct e) open) eqn:E; cbn [fst]; [exact Hd|].
+    rewrite map_app. cbn [map]. apply NoDup_snoc; [exact Hd|].
+    intros Hin. apply in_map_iff in Hin. destruct Hin as (x & Hx & Hin).
+    assert (is_open (tx_acct e) open = true) by (apply is_open_spec; exists x; auto).
+    congruence.
+  - destruct (snd (step db open (CheckOut o))) as [ps|x] eqn:S.
+    + cbn [step] in S. destruct (clock_out db open o) as [open' oc] eqn:C. cbn [snd fst] in *. subst oc.
+      apply clock_out_posted in C. destruct C as (e & l1 & l2 & -> & -> & _).
+      rewrite map_app in *. cbn [map] in Hd. apply NoDup_remove_1 in Hd. exact Hd.
+    + cbn [step] in S. destruct (clock_out db open o) as [open' oc] eqn:C. cbn [snd fst] in *. subst oc.
+      apply clock_out_failed in C. destruct C as [[-> _]|(_ & e & l1 & l2 & -> & -> & _)]; [exact Hd|].
+      rewrite map_app in *. cbn [map] in Hd. apply NoDup_remove_1 in Hd. exact Hd.
+Qed.
+
+(* ------------------------------------------------------------------ whole event sequences *)
+(* every check-out names an account, and never the F12 form, along the model's own run *)
+Fixpoint clean_run (db : bool) (open : list tx) (evs : list event) : Prop :=
+  match evs with
+  | [] => True
+  | ev :: r => named ev /\ ~ names_other open ev /\ clean_run db (fst (step db open ev)) r
+  end.
+
+Lemma spec_run_cons db open ev r :
+  spec_run db open (ev :: r) =
+  (fst (spec_run db (fst (spec_step db open ev)) r),
+   snd (spec_step db open ev) :: snd (spec_run db (fst (spec_step db open ev)) r)).
+Proof.
+  cbn [spec_run]. destruct (spec_step db open ev) as [o1 v]. cbn [fst snd].
+  destruct (spec_run db o1 r) as [o2 vs]. reflexivity.
+Qed.
+
+Lemma run_refines_spec db evs : forall open,
+  distinct open -> clean_run db open evs ->
+  spec_run db open evs = (fst (run db open evs), map verdict_of (snd (run db open evs))).
+Proof.
+  induction evs as [|ev r IH]; intros open Hd Hc; [reflexivity|].
+  destruct Hc as (Hn & Hf & Hc).
+  rewrite spec_run_cons, run_cons, (step_refines_spec db open ev Hd Hn Hf). cbn [fst snd map].
+  rewrite (IH _ (step_distinct db open ev Hd) Hc). reflexivity.
+Qed.
+
+Lemma run_distinct db evs : forall open, distinct open -> distinct (fst (run db open evs)).
+Proof.
+  induction evs as [|ev r IH]; intros open Hd; [exact Hd|].
+  rewrite run_cons. cbn [fst]. apply IH. apply step_distinct. exact Hd.
+Qed.
+
+(* which lines fail, said directly: exactly the three cases of the statement *)
+Lemma step_fails_iff db open ev c :
+  distinct open -> named ev -> ~ names_other open ev ->
+  ((exists x, snd (step db open ev) = Failed x /\ tl_class x = c) <->
+   match ev with
+   | CheckIn e => c = ETimelogDouble /\ exists e0, lookup (tx_acct e) open = Some e0
+   | CheckOut o =>
+       (c = ETimelogNoIn /\ lookup (tx_acct o) open = None) \/
+       (c = ETimelogNegative /\ exists e, lookup (tx_acct o) open = Some e /\ tx_t o < tx_t e)
+   end).
+Proof.
+  intros Hd Hn Hf. pose proof (step_refines_spec db open ev Hd Hn Hf) as R.
+  assert (V : snd (spec_step db open ev) = verdict_of (snd (step db open ev))) by (rewrite R; reflexivity).
+  clear R. destruct ev as [e|o]; cbn [spec_step] in V.
+  - destruct (lookup (tx_acct e) open) as [e0|]; cbn [snd] in V.
+    + split.
+      * intros (x & Hx & Hcx). rewrite Hx in V. cbn in V. injection V as V. split; [congruence|eauto].
+      * intros (-> & _). destruct (snd (step db open (CheckIn e))) as [ps|x]; cbn in V; [discriminate|].
+        injection V as V. eauto.
+    + split.
+      * intros (x & Hx & _). rewrite Hx in V. discriminate.
+      * intros (_ & e0 & He0). discriminate.
+  - destruct (lookup (tx_acct o) open) as [e|]; cbn [snd] in V.
+    + destruct (tx_t o <? tx_t e) eqn:Hlt.
+      * apply Z.ltb_lt in Hlt. split.
+        -- intros (x & Hx & Hcx). rewrite Hx in V. cbn in V. injection V as V. right. split; [congruence|eauto].
+        -- intros [(_ & Hnone)|(-> & _)]; [discriminate|].
+           destruct (snd (step db open (CheckOut o))) as [ps|x]; cbn in V; [discriminate|].
+           injection V as V. eauto.
+      * apply Z.ltb_ge in Hlt. split.
+        -- intros (x & Hx & _). rewrite Hx in V. discriminate.
+        -- intros [(_ & Hnone)|(_ & e1 & He1 & Hl)]; [discriminate|]. injection He1 as <-. lia.
+    + split.
+      * intros (x & Hx & Hcx). rewrite Hx in V. cbn in V. injection V as V. left. split; [congruence|reflexivity].
+      * intros [(-> & _)|(_ & e1 & He1 & _)]; [|discriminate].
+        destruct (snd (step db open (CheckOut o))) as [ps|x]; cbn in V; [discriminate|].
+        injection V as V. eauto.
+Qed.
+
+(* F12: with exactly one session open any check-out closes it, whatever account it names *)
+Lemma single_open_any_checkout db e o :
+  clock_out db [e] o =
+  ([], if tx_t o <? tx_t e then Failed TNegative else Posted (session_posts db e o)).
+Proof. unfold clock_out, clock_out_from, select. rewrite finish_spec. reflexivity. Qed.
+
+(* ---- every posting of a run is a session between a check-in and a check-out of the input ---- *)
+Lemma step_open_from db open ev x :
+  In x (fst (step db open ev)) -> In x open \/ ev = CheckIn x.
+Proof.
+  destruct ev as [e|o]; cbn [step].
+  - unfold clock_in. destruct (is_open (tx_acct e) open); cbn [fst]; [auto|].
+    rewrite in_app_iff. intros [H|[<-|[]]]; auto.
+  - destruct (clock_out db open o) as [open' oc] eqn:C. cbn [fst]. destruct oc as [ps|y].
+    + apply clock_out_posted in C. destruct C as (e & l1 & l2 & -> & -> & _).
+      rewrite !in_app_iff. intros [H|H]; left; [left|right; right]; exact H.
+    + apply clock_out_failed in C. destruct C as [[-> _]|(_ & e & l1 & l2 & -> & -> & _)]; [auto|].
+      rewrite !in_app_iff. intros [H|H]; left; [left|right; right]; exact H.
+Qed.
+
+Definition is_session (db : bool) (open : list tx) (evs : list event) (ps : list post) : Prop :=
+  exists e o, (In e open \/ In (CheckIn e) evs) /\ In (CheckOut o) evs /\
+              tx_t e <= tx_t o /\ ps = session_posts db e o.
+
+Lemma run_sessions db evs : forall open,
+  Forall (fun oc => match oc with Posted [] => True | Posted ps => is_session db open evs ps | Failed _ => True end)
+         (snd (run db open evs)).
+Proof.
+  induction evs as [|ev r IH]; intros open; [constructor|].
+  rewrite run_cons. cbn [snd]. constructor.
+  - destruct ev as [e|o]; cbn [step].
+    + unfold clock_in. destruct (is_open (tx_acct e) open); cbn [snd]; exact I.
+    + destruct (clock_out db open o) as [open' oc] eqn:C. cbn [snd]. destruct oc as [[|p ps]|y]; try exact I.
+      apply clock_out_posted in C. destruct C as (e & l1 & l2 & -> & _ & _ & Hle & Hps).
+      exists e, o. split; [left; apply in_elt|]. split; [left; reflexivity|]. auto.
+  - eapply Forall_impl; [|apply IH]. intros oc. destruct oc as [[|p ps]|y]; auto.
+    intros (e & o & He & Ho & Hle & Hps). exists e, o. split; [|split; [right; exact Ho|auto]].
+    destruct He as [He|He]; [|right; right; exact He].
+    apply step_open_from in He. destruct He as [He| ->]; [left; exact He|right; left; reflexivity].
+Qed.
+
+(* ------------------------------------------------------------------ end of file *)
+Definition close_out (now : Z) (e : tx) : tx := mkTx now false (tx_acct e) [].
+
+Lemma close_loop_spec db now : forall open,
+  distinct open -> Forall (fun e => tx_acct e <> None) open ->
+  close_loop db now (map tx_acct open) open =
+  if existsb (fun e => now <? tx_t e) open then inr TNegative
+  else inl (concat (map (fun e => session_posts db e (close_out now e)) open)).
+Proof.
+  induction open as [|e r IH]; intros Hd Hn; [reflexivity|].
+  cbn [map close_loop existsb concat].
+  inversion Hn as [|? ? Hne Hn']; subst.
+  unfold distinct in Hd. cbn [map] in Hd. inversion Hd as [|? ? Hnin Hd']; subst.
+  assert (S : select (e :: r) (mkTx now false (tx_acct e) []) = inl (e, r)).
+  { unfold select. destruct r as [|y r']; [reflexivity|]. cbn [tx_acct].
+    destruct (tx_acct e) as [n|] eqn:Ea; [|congruence].
+    cbn [take_first]. rewrite Ea, acct_eqb_refl. reflexivity. }
+  unfold clock_out_from. rewrite S, finish_spec. cbn [tx_t].
+  destruct (now <? tx_t e) eqn:Hlt; cbn [orb]; [reflexivity|].
+  rewrite (IH Hd' Hn'). destruct (existsb (fun e0 => now <? tx_t e0) r); reflexivity.
+Qed.
+
+Lemma run_named db evs : forall open,
+  Forall (fun e => tx_acct e <> None) open ->
+  Forall (fun ev => match ev with CheckIn e => tx_acct e <> None | CheckOut _ => True end) evs ->
+  Forall (fun e => tx_acct e <> None) (fst (run db open evs)).
+Proof.
+  induction evs as [|ev r IH]; intros open Ho He; [exact Ho|].
+  rewrite run_cons. cbn [fst]. inversion He as [|? ? Hev He']; subst. apply IH; [|exact He'].
+  apply Forall_forall. intros x Hx. apply step_open_from in Hx. destruct Hx as [Hx| ->].
+  - rewrite Forall_forall in Ho. apply Ho. exact Hx.
+  - exact Hev.
+Qed.
+
+(* ------------------------------------------------------------------ the whole file *)
+Definition same_time (r1 r2 : list post + tlerr) : Prop :=
+  match r1, r2 with
+  | inl p, inl q => forall a, total_for a p = total_for a q
+  | inr x, inr y => x = y
+  | _, _ => False
+  end.
+
+Lemma clock_out_from_day_break open o :
+  fst (clock_out_from true open o) = fst (clock_out_from false open o) /\
+  match snd (clock_out_from true open o), snd (clock_out_from false open o) with
+  | Posted p, Posted q => forall a, total_for a p = total_for a q
+  | Failed x, Failed y => x = y
+  | _, _ => False
+  end.
+Proof.
+  unfold clock_out_from. destruct (select open o) as [[e rest]|y]; [|cbn; auto].
+  rewrite !finish_spec. destruct (tx_t o <? tx_t e) eqn:Hn; cbn [fst snd]; [auto|].
+  apply Z.ltb_ge in Hn. split; [reflexivity|]. intros a0. rewrite !session_total by assumption. reflexivity.
+Qed.
+
+Lemma close_loop_day_break now accts : forall open,
+  same_time (close_loop true now accts open) (close_loop false now accts open).
+Proof.
+  induction accts as [|a r IH]; intros open; cbn [close_loop]; [cbn; reflexivity|].
+  destruct (clock_out_from_day_break open (mkTx now false a [])) as [Ho Hs].
+  destruct (clock_out_from true open (mkTx now false a [])) as [o1 oc1].
+  destruct (clock_out_from false open (mkTx now false a [])) as [o2 oc2].
+  cbn [fst snd] in *. subst o2.
+  destruct oc1 as [p|x], oc2 as [q|y]; try contradiction; [|cbn; exact Hs].
+  specialize (IH o1). unfold same_time in *.
+  destruct (close_loop true now r o1) as [p'|x'], (close_loop false now r o1) as [q'|y']; try contradiction.
+  - intros a0. rewrite !total_for_app, Hs, IH. reflexivity.
+  - exact IH.
+Qed.
+
+(* an account's reported time, the failing lines and their classes are the same with and
+   without --day-break *)
+Lemma journal_day_break now evs :
+  match journal true now evs, journal false now evs with
+  | Report p, Report q => forall a, total_for a p = total_for a q
+  | Errors l c, Errors l' c' => l = l' /\ c = c'
+  | _, _ => False
+  end.
+Proof.
+  unfold journal.
+  destruct (run_day_break evs [] 0) as (H1 & H2 & H3).
+  destruct (run true [] evs) as [o1 ocs1]. destruct (run false [] evs) as [o2 ocs2].
+  cbn [fst snd] in *. subst o2. rewrite H2.
+  pose proof (close_loop_day_break now (map tx_acct o1) o1) as C. unfold close.
+  unfold same_time in C.
+  destruct (close_loop true now (map tx_acct o1) o1) as [p|x],
+           (close_loop false now (map tx_acct o1) o1) as [q|y]; try contradiction.
+  - destruct (failures 0 ocs2); [|auto]. intros a. rewrite !total_for_app, H3, C. reflexivity.
+  - subst y. auto.
+Qed.
+
+Definition named_in (ev : event) : Prop :=
+  match ev with CheckIn e => tx_acct e <> None | CheckOut _ => True end.
+
+(* the report of a file in which every check-in names an account: the sessions closed by the
+   lines, then the sessions still open, ended at --now, in check-in order *)
+Lemma journal_spec db now evs :
+  Forall named_in evs ->
+  let open := fst (run db [] evs) in
+  let ocs := snd (run db [] evs) in
+  journal db now evs =
+  if existsb (fun e => now <? tx_t e) open then Errors (failures 0 ocs) (Some TNegative)
+  else match failures 0 ocs with
+       | [] => Report (posted ocs ++ concat (map (fun e => session_posts db e (close_out now e)) open))
+       | l => Errors l None
+       end.
+Proof.
+  intros Hn open ocs. unfold journal, close.
+  assert (Hd : distinct open) by (apply run_distinct; constructor).
+  assert (Ho : Forall (fun e => tx_acct e <> None) open) by (apply run_named; [constructor|exact Hn]).
+  subst open ocs. destruct (run db [] evs) as [open ocs]. cbn [fst snd] in *.
+  rewrite (close_loop_spec db now open Hd Ho).
+  destruct (existsb (fun e => now <? tx_t e) open); [reflexivity|].
+  destruct (failures 0 ocs); reflexivity.
+Qed.
+
+(* ------------------------------------------------------------------ statements as exported *)
+Lemma session_seconds_lemma open o open' ps :
+  clock_out false open o = (open', Posted ps) ->
+  exists e l1 l2 p,
+    open = l1 ++ e :: l2 /\ open' = l1 ++ l2 /\
+    (open = [e] \/ (tx_acct e = tx_acct o /\ forall x, In x l1 -> tx_acct x <> tx_acct o)) /\
+    ps = [p] /\
+    p_secs p = tx_t o - tx_t e /\ 0 <= p_secs p /\
+    p_day p = day_of (tx_t e) /\ p_acct p = tx_acct e /\
+    p_in p = tx_t e /\ p_out p = tx_t o /\ p_cleared p = tx_done o.
+Proof.
+  intros H. apply clock_out_posted in H. destruct H as (e & l1 & l2 & H1 & H2 & H3 & H4 & H5).
+  exists e, l1, l2, (session_post e o (tx_t e) (tx_t o)). cbn. repeat split; auto; lia.
+Qed.
+
+Lemma day_break_pieces_lemma open o open' ps :
+  clock_out true open o = (open', Posted ps) ->
+  exists e l1 l2,
+    open = l1 ++ e :: l2 /\ open' = l1 ++ l2 /\
+    (open = [e] \/ (tx_acct e = tx_acct o /\ forall x, In x l1 -> tx_acct x <> tx_acct o)) /\
+    tx_t e <= tx_t o /\
+    (tx_t e = tx_t o -> ps = []) /\
+    (tx_t e < tx_t o ->
+       contiguous (tx_t e) ps (tx_t o) /\ Forall (session_piece_ok e o) ps /\
+       sum_secs ps = tx_t o - tx_t e /\
+       Z.of_nat (length ps) = day_of (tx_t o - 1) - day_of (tx_t e) + 1 /\
+       ps = map (session_piece e o) (zrange (day_of (tx_t e)) (day_count (tx_t e) (tx_t o)))).
+Proof.
+  intros H. apply clock_out_posted in H. destruct H as (e & l1 & l2 & H1 & H2 & H3 & H4 & ->).
+  exists e, l1, l2. repeat split; auto.
+  - intros E. apply session_posts_empty. lia.
+  - apply session_posts_facts; assumption.
+  - apply session_posts_facts; assumption.
+  - apply session_posts_facts; assumption.
+  - apply session_posts_facts; assumption.
+  - unfold session_posts. apply Z.ltb_lt in H. rewrite H. reflexivity.
+Qed.
+
+Lemma midnight_checkout_lemma e o :
+  tx_t e < tx_t o -> tx_t o <= next_midnight (tx_t e) ->
+  session_posts true e o = [session_post e o (tx_t e) (tx_t o)].
+Proof. intros H1 H2. rewrite session_posts_one_day by assumption. reflexivity. Qed.
